@@ -51,6 +51,7 @@ type PushPullHandler struct {
 	ctx      iface.OrdaContext
 	managers *managers.Managers
 	lock     utils.Lock
+	locked   bool
 
 	casePushPull pushPullCase
 	initialCP    *model.CheckPoint
@@ -134,10 +135,12 @@ func (its *PushPullHandler) initialize(retCh chan *model.PushPullPack) errors.Or
 func (its *PushPullHandler) finalize() {
 	if r := recover(); r != nil {
 		its.ctx.L().Errorf("recover panic [%v]: %v", r, string(debug.Stack()))
-
-		return
+		// the caller is waiting for a reply and other requests for the lock: answer with an error
+		its.err = errors.PushPullAbortionOfServer.New(its.ctx.L(), fmt.Sprintf("%v", r))
 	}
-	defer its.lock.Unlock()
+	if its.locked {
+		defer its.lock.Unlock()
+	}
 	if its.err == nil {
 		its.ctx.L().Infof("finish with CP %v -> %v and pulled ops: %d",
 			its.initialCP.ToString(), its.currentCP.ToString(), len(its.resPushPullPack.Operations))
@@ -185,15 +188,19 @@ func (its *PushPullHandler) logInitialConditions() {
 
 func (its *PushPullHandler) process(retCh chan *model.PushPullPack) {
 
-	its.lock.TryLock()
-
 	defer its.finalize()
 
-	if its.err = its.validatePushPullPack(); its.err != nil {
+	// the reply has to exist before anything can be refused
+	if its.err = its.initialize(retCh); its.err != nil {
 		return
 	}
 
-	if its.err = its.initialize(retCh); its.err != nil {
+	if its.locked = its.lock.TryLock(); !its.locked {
+		its.err = errors.PushPullAbortionOfServer.New(its.ctx.L(), "fail to lock "+its.getLockKey())
+		return
+	}
+
+	if its.err = its.validatePushPullPack(); its.err != nil {
 		return
 	}
 
